@@ -157,6 +157,69 @@ Theorem C13_trr_gromacs_constants : forall h lay,
 Proof. exact trr_gromacs_constants. Qed.
 Print Assumptions C13_trr_gromacs_constants.
 
+(* ---------------------------------------------------------------- GROMACS TRR: every interleaving
+
+   The writer against every observation point of the loop.  get_gromacs_frames learns about
+   the world only through check_poll() and os.path.getsize(); [trr_sched true head lay sizes fin]
+   runs the loop (model/ReadersM.v: trr_step, one transition per observation, program points
+   PcPoll .. PcDone) against the schedule "the k-th observation made while GROMACS is still
+   running sees sizes[k] bytes on disk; the observation number |sizes| and all later ones see
+   GROMACS ended with code 0 and [fin] bytes on disk".  |sizes| is arbitrary, so GROMACS is
+   first seen ended at ANY observation of ANY program point, in particular between the getsize
+   that says "data of this frame not ready" and the check_poll() that follows it.
+
+   For every such schedule (no observation larger than the final size), with [kf] the number
+   of frames completely inside the final [fin] bytes: the generator returns; the frames handed
+   out are 0 .. kf-1, each once, in order - no complete frame is lost, none is invented; every
+   read lies inside the bytes on disk when it is issued, at a block boundary, with the block's
+   length - except that read_remaining_trr, when GROMACS ended with code 0 INSIDE a frame,
+   goes on to read that partial frame (TGarbage; the real function then raises struct.error:
+   outside the property, which is about partial writes of an output that gets completed). *)
+Theorem C13_trr_every_interleaving : forall (head h : Z) (lay : layout),
+  0 < h -> h <= head -> lay_ok h lay ->
+  forall (fin : Z) (kf : nat),
+  fin <= layout_size lay -> (kf <= length lay)%nat -> off lay kf <= fin ->
+  ((kf < length lay)%nat -> fin < off lay (S kf)) ->
+  forall sizes, Forall (fun s => s <= fin) sizes ->
+  m_pc (fst (trr_sched true head lay sizes fin)) = PcDone /\
+  t_bad (m_st (fst (trr_sched true head lay sizes fin))) = false /\
+  Forall (ev_ok h lay fin kf) (snd (trr_sched true head lay sizes fin)) /\
+  yields (snd (trr_sched true head lay sizes fin)) = seq 0 kf.
+Proof. exact trr_every_interleaving. Qed.
+Print Assumptions C13_trr_every_interleaving.
+
+(* such a kf exists for every final size (the theorem above is not vacuous) *)
+Theorem C13_trr_complete_frames_exist : forall (h : Z) (lay : layout) (fin : Z),
+  0 <= fin -> fin <= layout_size lay ->
+  exists kf, (kf <= length lay)%nat /\ off lay kf <= fin /\
+             ((kf < length lay)%nat -> fin < off lay (S kf)).
+Proof. intros h lay. exact (complete_frames_exist lay). Qed.
+Print Assumptions C13_trr_complete_frames_exist.
+
+(* GROMACS wrote everything and exited with code 0, with the constants of gromacs.py: for
+   EVERY interleaving the generator returns, all reads are safe and ALL frames are handed out
+   once, in order *)
+Theorem C13_trr_no_complete_frame_lost : forall h lay,
+  h = trr_header_bytes_single \/ h = trr_header_bytes_double -> lay_ok h lay ->
+  forall sizes, Forall (fun s => s <= layout_size lay) sizes ->
+  m_pc (fst (trr_sched true trr_head_size lay sizes (layout_size lay))) = PcDone /\
+  Forall (ev_safe h lay) (snd (trr_sched true trr_head_size lay sizes (layout_size lay))) /\
+  yields (snd (trr_sched true trr_head_size lay sizes (layout_size lay))) = seq 0 (length lay).
+Proof. exact trr_gromacs_no_complete_frame_lost. Qed.
+Print Assumptions C13_trr_no_complete_frame_lost.
+
+(* the loop that decides "GROMACS has ended and the frame is incomplete" with the size it
+   read BEFORE check_poll() (no second getsize) is refuted: it returns with both complete
+   frames of the witness lost, where the loop as it is hands out both *)
+Theorem C13_trr_stale_size_refuted :
+  exists lay sizes, lay_ok trr_header_bytes_single lay /\
+    Forall (fun s => s <= layout_size lay) sizes /\
+    m_pc (fst (trr_sched false trr_head_size lay sizes (layout_size lay))) = PcDone /\
+    yields (snd (trr_sched false trr_head_size lay sizes (layout_size lay))) = [] /\
+    yields (snd (trr_sched true trr_head_size lay sizes (layout_size lay))) = [0%nat; 1%nat].
+Proof. exact trr_stale_size_refuted. Qed.
+Print Assumptions C13_trr_stale_size_refuted.
+
 (* ---------------------------------------------------------------- the readers before the repair (lead L1) *)
 
 (* xyz_reader as it was: a cut inside the last number of a frame returns that frame with a
@@ -222,5 +285,22 @@ Example C13_example_trr :
                           (layout_size lay))) = [2%nat].
 Proof.
   cbn zeta. split; [|split; vm_compute; reflexivity].
+  repeat constructor; cbn; lia.
+Qed.
+
+(* header of frame 1 read, its data not complete at the getsize; GROMACS writes the rest and
+   exits before the check_poll() of the guard: all three frames are handed out; if it exits
+   inside frame 1 instead (1300 bytes), the loop returns with frame 0 only *)
+Example C13_example_trr_interleaving :
+  let lay := [(84, 600); (84, 600); (84, 48)] in
+  lay_ok 84 lay /\ layout_size lay = 1500 /\
+  yields (snd (trr_sched true 1000 lay [0; 1000; 1000; 1000; 1000; 1000] 1500)) = [0%nat; 1%nat; 2%nat] /\
+  trr_sched_pcs true 1000 lay [0; 1000; 1000; 1000; 1000; 1000] 1500 =
+    [PcPoll; PcHdrSize; PcDataSize; PcPoll; PcHdrSize; PcDataSize;
+     PcGuardPoll; PcGuardSize; PcDataSize; PcPoll; PcFinSize; PcRemSize; PcDone; PcDone] /\
+  yields (snd (trr_sched true 1000 lay [0; 1000; 1000; 1000; 1000; 1000] 1300)) = [0%nat] /\
+  m_pc (fst (trr_sched true 1000 lay [0; 1000; 1000; 1000; 1000; 1000] 1300)) = PcDone.
+Proof.
+  cbn zeta. split; [|repeat split; vm_compute; reflexivity].
   repeat constructor; cbn; lia.
 Qed.
